@@ -273,7 +273,7 @@ def record_extra(rng, g, k, D, N, C, x, y, m) -> List[List[dict]]:
             trace(name + "[sampled,mask]", evs)
     # loss modules with implicit normalisation: norm = max_difference(source, target)^2 from whichever images are given
     s_img, t_img = x * 2 + 1, y + 3
-    for cls, fn in ((LI.L2ImageLoss, L.mse_loss), (LI.SSD, L.ssd_loss), (LI.L1ImageLoss, L.mae_loss)):
+    for cls, fn in ((LI.L2ImageLoss, L.mse_loss), (LI.SSD, L.ssd_loss), (LI.L1ImageLoss, L.mae_loss), (LI.HuberImageLoss, L.huber_loss), (LI.SmoothL1ImageLoss, L.smooth_l1_loss)):
         name = cls.__name__ + "[norm]"
         evs = []
         try:
@@ -287,6 +287,27 @@ def record_extra(rng, g, k, D, N, C, x, y, m) -> List[List[dict]]:
         except Exception as ex:
             evs.append(dict(ev="ax", ax="accepted", loss=name, D=D, N=N, C=C, exc=True, what="module with norm", err=f"{type(ex).__name__}: {ex}"[:120]))
         trace(name, evs)
+    # patch-wise evaluation (2-D patches inside a volume): the mask is sampled with the patches; whatever its dtype, samples where it is
+    # zero do not matter, and with patches placed on the voxel lattice the loss is the plain masked loss
+    if D == 3 and C == 1:  # (the module asks for a mask of the target's shape AND a single channel)
+        from deepali.core.grid import Grid
+
+        patches = Grid(shape=shape[2:], align_corners=True).coords().unsqueeze(0).expand(N, *shape[2:], 3).contiguous()
+        mm = (torch.rand((N, C) + shape[2:], generator=g) > 0.4)
+        xz = torch.where(mm == 0, x + 6, x)
+        yz = torch.where(mm == 0, y - 3, y)
+        for lname, mk in (("SSD", lambda: LI.SSD()), ("L1ImageLoss", lambda: LI.L1ImageLoss())):  # (NCC with a mask: known finding C16-ncc-mask)
+            for mt_name, mcast in (("bool", lambda t: t), ("uint8", lambda t: t.to(torch.uint8)), ("float", lambda t: t.float()), ("int64", lambda t: t.long()), ("double", lambda t: t.double())):
+                name = f"PatchwiseImageLoss[{lname},{mt_name} mask]"
+                evs = []
+                try:
+                    pl = LI.PatchwiseImageLoss(patches, mk())
+                    v = pl(x, y, mask=mcast(mm))
+                    evs.append(dict(ev="ax", ax="invariant", loss=name, D=D, N=N, C=C, v1=cap(pl(xz, yz, mask=mcast(mm))), v2=cap(v), what="intensities changed where the mask is zero"))
+                    evs.append(dict(ev="ax", ax="equals", loss=name, D=D, N=N, C=C, v1=cap(v), v2=cap(pl(x, y, mask=mm)), what="same value as with the boolean mask"))
+                except Exception as ex:
+                    evs.append(dict(ev="ax", ax="accepted", loss=name, D=D, N=N, C=C, exc=True, what="patch-wise loss with mask", err=f"{type(ex).__name__}: {ex}"[:120]))
+                trace(name, evs)
     return out
 
 
